@@ -251,3 +251,34 @@ fn check_prim(o: &Obs<'_>, name: &'static str, p0: usize, want: bool, adv: usize
 }
 
 pub fn la_name(l: Lookahead) -> &'static str { match l { Lookahead::Positive => "P", Lookahead::Negative => "G", Lookahead::None => "N" } }
+
+/// The same interpreter without the oracle's snapshots (used to execute generated code at speed).
+pub fn run_fast<'i>(p: &Prog, env: &[Prog], s: St<'i>) -> ParseResult<St<'i>> {
+    use Prog::*;
+    match p {
+        Fn(n) => { let f = FNS.with(|m| m.borrow().get(n).cloned()); match f { Some(f) => run_fast(&f, env, s), None => panic!("undefined function {}", n) } }
+        FnSkip => { let f = FNS.with(|m| m.borrow().get("skip").cloned()); match f { Some(f) => run_fast(&f, env, s), None => panic!("no skip function") } }
+        IfNA(q) => if s.atomicity() == Atomicity::NonAtomic { run_fast(q, env, s) } else { Result::Ok(s) },
+        Ok => Result::Ok(s), Fail => Err(s),
+        Call(i) => run_fast(&env[*i], env, s),
+        And(a, b) => run_fast(a, env, s).and_then(|s| run_fast(b, env, s)),
+        Or(a, b) => run_fast(a, env, s).or_else(|s| run_fast(b, env, s)),
+        Seq(a) => s.sequence(|s| run_fast(a, env, s)),
+        Opt(a) => s.optional(|s| run_fast(a, env, s)),
+        Rep(a) => s.repeat(|s| run_fast(a, env, s)),
+        La(pos, a) => s.lookahead(*pos, |s| run_fast(a, env, s)),
+        At(a, b) => s.atomic(match a { 'A' => Atomicity::Atomic, 'C' => Atomicity::CompoundAtomic, _ => Atomicity::NonAtomic }, |s| run_fast(b, env, s)),
+        Rule(r, a) => s.rule(R(*r), |s| run_fast(a, env, s)),
+        Push(a) => s.stack_push(|s| run_fast(a, env, s)),
+        Roe(a) => s.restore_on_err(|s| run_fast(a, env, s)),
+        Str(x) => s.match_string(x), Ins(x) => s.match_insensitive(x), Rng(a, b) => s.match_range(*a..*b),
+        Cby(rs) => s.match_char_by(|c| rs.iter().any(|(lo, hi)| *lo <= c as u32 && c as u32 <= *hi)),
+        Skip(n) => s.skip(*n),
+        Until(ss) => { let refs: Vec<&str> = ss.iter().map(|x| x.as_str()).collect(); s.skip_until(&refs) }
+        Soi => s.start_of_input(), Eoi => s.end_of_input(),
+        Peek => s.stack_peek(), Pop => s.stack_pop(), MPeek => s.stack_match_peek(), MPop => s.stack_match_pop(), Drop => s.stack_drop(),
+        Slice(a, b, d) => s.stack_match_peek_slice(*a, *b, if *d { MatchDir::BottomToTop } else { MatchDir::TopToBottom }),
+        Lit(x) => s.stack_push_literal(x.clone()),
+        Tag(t) => s.tag_node(intern(t)),
+    }
+}
